@@ -7,7 +7,10 @@ From ClapModel Require Import ParseProofs.Safe ParseProofs.Invariant ParseProofs
 From ClapModel Require Import ParseProofs.Actions ParseProofs.Unparse ParseProofs.UnparseProofs ParseProofs.UnparseTop
                               ParseProofs.UnparseSub ParseProofs.UnparseTrail ParseProofs.UnparseTree ParseProofs.UnparseIdx ParseProofs.UnparseIdxTop
                               ParseProofs.UnparseExamples.
-From Coq Require Import ZArith Sorting.Sorted List.
+From ClapModel Require Import Base.Utf8 Lex.OsStrExtModel Lex.OsStrExtProofs ParseProofs.UnparseLift.
+From ClapModel Require Import ParseProofs.UnparseX ParseProofs.UnparseXProofs ParseProofs.UnparseXTree ParseProofs.UnparseXExamples.
+From ClapModel Require Import ParseProofs.Globals ParseProofs.UnparseGlobals ParseProofs.Spelling ParseProofs.UnparsePending ParseProofs.UnparseBridge.
+From Coq Require Import ZArith Sorting.Sorted Sorting.Permutation List.
 Import ListNotations.
 Open Scope N_scope.
 
@@ -356,3 +359,365 @@ Proof.
   split; [exact UnparseEx.ex_trail_render|]. exact UnparseEx.ex_trail_parse.
 Qed.
 Print Assumptions C02_unparse_trail_nonvacuous.
+
+(** * Third pass: conjuncts of the class lifted one at a time (ParseProofs/UnparseLift.v ...) *)
+
+(** (1) POSITIONALS ARE LOOKED UP BY KEY, NOT BY DECLARATION ORDER.  For every command passing the validity gate,
+    [get_pos c n] (the lookup [Parser::parse] does for the value at positional counter [n]) answers
+    exactly the argument whose index is [n]; no other argument has that index. *)
+Theorem C02_positional_key_decides : forall c, assert_app c = true -> forall n a,
+  get_pos c n = Some a <-> (In a (c_args c) /\ a_index a = Some n).
+Proof. exact get_pos_key. Qed.
+Print Assumptions C02_positional_key_decides.
+
+Theorem C02_positional_index_unique : forall c, assert_app c = true -> forall a b n,
+  In a (c_args c) -> In b (c_args c) -> a_index a = Some n -> a_index b = Some n -> a = b.
+Proof. exact assert_app_pos_unique. Qed.
+Print Assumptions C02_positional_index_unique.
+
+(** ... so declaring the same arguments in any other order changes no positional lookup *)
+Theorem C02_positional_declaration_order_irrelevant : forall c c', assert_app c = true ->
+  Permutation (c_args c) (c_args c') -> forall n, get_pos c' n = get_pos c n.
+Proof. exact get_pos_perm. Qed.
+Print Assumptions C02_positional_declaration_order_irrelevant.
+
+(** ... and in the denotation of [C02_unparse] / [C02_conservation_tree] a run of values at counter
+    [pos] is one occurrence of THE argument with index [pos] *)
+Theorem C02_positional_run_attribution : forall c, conv c = true -> forall pst pos vs its,
+  wf_items c pst pos (ItPos vs :: its) = true ->
+  exists a, In a (c_args c) /\ a_index a = Some pos /\
+    (forall b, In b (c_args c) -> a_index b = Some pos -> b = a) /\
+    occs c pos (ItPos vs :: its) = occ_of IIndex a vs :: occs c (item_pos c pos (ItPos vs)) its.
+Proof. exact pos_run_attribution. Qed.
+Print Assumptions C02_positional_run_attribution.
+
+(** Non-vacuity: [prog <second>... <first>] with the index-2 positional declared first; the line [A B C]
+    satisfies the hypotheses of [C02_unparse_denote], [A] goes to index 1, [B C] to index 2. *)
+Theorem C02_positional_order_nonvacuous :
+  (is_set s_no_binary_name LiftEx.k0 = false /\ valid (with_bin LiftEx.k0 LiftEx.kbin) = true /\
+   wf_inv LiftEx.kc LiftEx.kinv = true /\
+   no_globals (build_recursive (S (S (depth LiftEx.kc))) (with_bin LiftEx.k0 LiftEx.kbin)) = true /\
+   render_inv LiftEx.kinv = [[65]; [66]; [67]] /\
+   opt_map a_id (hd_error (positionals LiftEx.kc)) = Some [50] /\
+   opt_map a_id (get_pos LiftEx.kc 1) = Some [49] /\ opt_map a_id (get_pos LiftEx.kc 2) = Some [50]) /\
+  exists m, parse_top LiftEx.k0 (LiftEx.kbin :: render_inv LiftEx.kinv) = OOk m /\
+    LiftEx.raw_of [49] m = Some [[[65]]] /\ LiftEx.raw_of [50] m = Some [[[66]; [67]]] /\
+    LiftEx.idx_of_m [49] m = Some [1] /\ LiftEx.idx_of_m [50] m = Some [2; 3].
+Proof. split; [exact LiftEx.ex_order_hyps|exact LiftEx.ex_order_parse]. Qed.
+Print Assumptions C02_positional_order_nonvacuous.
+
+(** (2) DELIMITER SPLITTING IS BYTE LEVEL AND KEEPS EVERY PIECE.  For any command, any argument with a
+    delimiter [d] and ANY byte strings (no UTF-8 condition), the values stored for an occurrence are the
+    concatenation, in order, of the pieces of each raw value, where the pieces of [v] are its leftmost
+    non-overlapping split at the encoded delimiter ([SplitSpec], a functional relation) and re-assemble
+    to [v] -- so [a,,b], [,a], [b,] give [a;"";b], ["";a], [b;""].  Without a delimiter nothing is split. *)
+Theorem C02_delimit_bytes : forall c a d raw, a_delim a = Some d ->
+  exists pss, Forall2 (fun v ps => SplitSpec (encode_utf8 d) v ps /\ intercalate (encode_utf8 d) ps = v) raw pss
+              /\ delimit c a raw None = Some (concat pss).
+Proof. exact delimit_bytes. Qed.
+Print Assumptions C02_delimit_bytes.
+
+Theorem C02_no_delimiter_no_split : forall c a raw ti, a_delim a = None -> delimit c a raw ti = Some raw.
+Proof. exact delimit_none. Qed.
+Print Assumptions C02_no_delimiter_no_split.
+
+(** a value of an OsString-typed argument is never rejected for its bytes *)
+Theorem C02_osstring_never_rejects : forall c a, a_vp a = Some VPOsString -> forall raw st e s,
+  push_arg_values c a raw st <> RErr e s.
+Proof. exact push_os_never_rejects. Qed.
+Print Assumptions C02_osstring_never_rejects.
+
+(** Non-vacuity: [prog --mu a,,b ,a b, --mu=\xff,\xc3 -m\xe9 g\xe9n] on an OsString Append option with
+    delimiter [,] and an OsString positional: hypotheses of [C02_unparse_denote] hold, three values are
+    not UTF-8, the groups keep every (empty) piece, indices count every piece. *)
+Theorem C02_osstring_nonvacuous :
+  (is_set s_no_binary_name LiftEx.o0 = false /\ valid (with_bin LiftEx.o0 LiftEx.kbin) = true /\
+   wf_inv LiftEx.oc LiftEx.oinv = true /\
+   no_globals (build_recursive (S (S (depth LiftEx.oc))) (with_bin LiftEx.o0 LiftEx.kbin)) = true /\
+   render_inv LiftEx.oinv = [[45; 45; 109; 117]; [97; 44; 44; 98]; [44; 97]; [98; 44]; [45; 45; 109; 117; 61; 255; 44; 195];
+                             [45; 109; 233]; [103; 233; 110]] /\
+   utf8_valid [255; 44; 195] = false /\ utf8_valid [233] = false /\ utf8_valid [103; 233; 110] = false) /\
+  exists mm, parse_top LiftEx.o0 (LiftEx.kbin :: render_inv LiftEx.oinv) = OOk mm /\
+    LiftEx.raw_of [109] mm = Some [[[97]; []; [98]; []; [97]; [98]; []]; [[255]; [195]]; [[233]]] /\
+    LiftEx.idx_of_m [109] mm = Some [2; 3; 4; 5; 6; 7; 8; 10; 11; 13] /\
+    LiftEx.raw_of [102] mm = Some [[[103; 233; 110]]] /\ LiftEx.idx_of_m [102] mm = Some [14].
+Proof. split; [exact LiftEx.ex_os_hyps|exact LiftEx.ex_os_parse]. Qed.
+Print Assumptions C02_osstring_nonvacuous.
+
+(** (3) THE LIFTED CLASS: [require_equals], value terminators, hyphen / negative-number values of options
+    (ParseProofs/UnparseX.v: class; UnparseXProofs.v: token loop; UnparseXTree.v: level, tree, top).
+    Items, rendering and meaning are unchanged; the class [convx]/[wfx_items]/[wfx_inv] allows an argument to
+    have [require_equals] (then it is spelled only [--o=v] / [-o=v], clusters [-abco=v] included), a value
+    terminator (separate values differ from it; the terminator token itself: [C02_terminator_token]), and --
+    options only -- [allow_hyphen_values] (separate values are ANY tokens, [--], [--x], [-x] included) /
+    [allow_negative_numbers] (also [-<number>]); an occurrence with separate values of such an option is
+    complete (otherwise it swallows the next item).  Still outside: [last], [trailing_var_arg], hyphen values
+    of positionals, the values after [--] for this class. *)
+
+(** the old class is contained in the new one (so [C02_unparse_loop] etc. are instances of what follows) *)
+Theorem C02_class_lifted : forall c, conv c = true -> convx c = true /\
+  forall its pst pos, wf_items c pst pos its = true -> wfx_items c pst pos its = true.
+Proof. exact class_lifted. Qed.
+Print Assumptions C02_class_lifted.
+
+Theorem C02_class_lifted_tree : forall i c, wf_inv c i = true -> no_trail i = true -> wfx_inv c i = true.
+Proof. exact wf_inv_wfx_inv. Qed.
+Print Assumptions C02_class_lifted_tree.
+
+(** TOKEN LOOP, lifted class: every token of the rendered items is consumed exactly once, as the part of the item
+    it was rendered from, for every state between two items and ANY rest. *)
+Theorem C02_unparse_loop_x : forall c, convx c = true -> forall its rest pst pos vaf st,
+  wfx_items c pst pos its = true -> pst_okx c pst -> pend_inv c pst st -> fs_skip st = 0 ->
+  parse_loop c (render its ++ rest) (mkL pst pos vaf false) st =
+  (do st' <- apply_items c pos its st;
+   parse_loop c rest (mkL (items_pst c pst pos its) (items_pos c pos its) (vaf || negb (is_nil its)) false) st').
+Proof. exact loop_items_x. Qed.
+Print Assumptions C02_unparse_loop_x.
+
+Theorem C02_unparse_meaning_x : forall c, convx c = true -> forall its pst pos st, wfx_items c pst pos its = true ->
+  (do st' <- apply_items c pos its st; resolve_pending c st') =
+  (do st0 <- resolve_pending c st; react_all c (occs c pos its) st0).
+Proof. exact flush_items_x. Qed.
+Print Assumptions C02_unparse_meaning_x.
+
+(** one separate value of an open occurrence of [a]: a plain value token, ANY token when [a] takes hyphen
+    values, [-<number>] when [a] takes negative numbers -- compared with the terminator, otherwise stored *)
+Theorem C02_value_step_x : forall c, convx c = true -> forall a tok rest pos vaf st, In a (c_args c) ->
+  (a_hyphen a || value_ok tok || (a_negnum a && negnum_tok tok)) = true ->
+  parse_loop c (tok :: rest) (mkL (PSOpt (a_id a)) pos vaf false) st =
+  (if check_terminator a tok then parse_loop c rest (mkL PSValuesDone pos vaf false) st
+   else do y <- Spelling.take_value c (a_id a) tok st;
+        parse_loop c rest (mkL (if snd y then PSOpt (a_id a) else PSValuesDone) pos vaf false) (fst y)).
+Proof. exact value_step_x. Qed.
+Print Assumptions C02_value_step_x.
+
+(** THE TERMINATOR TOKEN is consumed, stores nothing, closes the occurrence *)
+Theorem C02_terminator_token : forall c, convx c = true -> forall a t rest pos vaf st,
+  In a (c_args c) -> a_term a = Some t -> (a_hyphen a || value_ok t || (a_negnum a && negnum_tok t)) = true ->
+  parse_loop c (t :: rest) (mkL (PSOpt (a_id a)) pos vaf false) st =
+  parse_loop c rest (mkL PSValuesDone pos vaf false) st.
+Proof. exact loop_terminator_x. Qed.
+Print Assumptions C02_terminator_token.
+
+(** one level, whole line, with a terminator token in it: [items1 ; items2] denotes the occurrences of
+    [items1 ++ items2] *)
+Theorem C02_unparse_level_terminator : forall c, convx c = true -> forall f its1 its2 a t,
+  is_set s_ignore_errors c = false ->
+  wfx_items c PSValuesDone 1 its1 = true -> items_pst c PSValuesDone 1 its1 = PSOpt (a_id a) ->
+  In a (c_args c) -> a_term a = Some t -> (a_hyphen a || value_ok t || (a_negnum a && negnum_tok t)) = true ->
+  wfx_items c PSValuesDone (items_pos c 1 its1) its2 = true ->
+  get_matches_with (S f) c (render its1 ++ t :: render its2) ps_new =
+  (do st1 <- react_all c (occs c 1 (its1 ++ its2)) ps_new; post_loop c st1).
+Proof. exact gmw_items_term_x. Qed.
+Print Assumptions C02_unparse_level_terminator.
+
+(** ONE LEVEL / TREE / TOP for the lifted class *)
+Theorem C02_unparse_level_x : forall c, convx c = true -> is_set s_ignore_errors c = false ->
+  forall f its, wfx_items c PSValuesDone 1 its = true ->
+  get_matches_with (S f) c (render its) ps_new =
+  (do st1 <- react_all c (occs c 1 its) ps_new; post_loop c st1).
+Proof. exact gmw_items_x. Qed.
+Print Assumptions C02_unparse_level_x.
+
+Theorem C02_unparse_tree_x : forall i c f, valid_tree (S f) c = true -> wfx_inv c i = true ->
+  get_matches_with (S f) c (render_inv i) ps_new = run_inv c i.
+Proof. exact gmw_inv_x. Qed.
+Print Assumptions C02_unparse_tree_x.
+
+Theorem C02_unparse_x : forall c0 bin i, is_set s_no_binary_name c0 = false ->
+  valid (with_bin c0 bin) = true -> wfx_inv (build_self (with_bin c0 bin)) i = true ->
+  parse_top c0 (bin :: render_inv i) =
+  finish_outcome (with_bin c0 bin) (run_inv (build_self (with_bin c0 bin)) i).
+Proof. exact parse_top_inv_x. Qed.
+Print Assumptions C02_unparse_x.
+
+Theorem C02_unparse_denote_x : forall c0 bin i st, is_set s_no_binary_name c0 = false ->
+  valid (with_bin c0 bin) = true -> wfx_inv (build_self (with_bin c0 bin)) i = true ->
+  no_globals (build_recursive (S (S (depth (build_self (with_bin c0 bin))))) (with_bin c0 bin)) = true ->
+  run_inv (build_self (with_bin c0 bin)) i = ROk st ->
+  parse_top c0 (bin :: render_inv i) = OOk (into_inner (mt st)).
+Proof. exact parse_top_denote_x. Qed.
+Print Assumptions C02_unparse_denote_x.
+
+(** CONSERVATION and INDICES at every level of a tree of the lifted class *)
+Theorem C02_conservation_tree_x : forall i c f st, valid_tree (S f) c = true -> wfx_inv c i = true ->
+  get_matches_with (S f) c (render_inv i) ps_new = ROk st ->
+  forall a, In a (c_args c) ->
+    (forall gs, denote_os c (a_id a) (inv_occs c i) = Some gs -> groups_of (a_id a) (mt st) = Some gs)
+    /\ (forall e, fm_get (a_id a) (mt_args (mt st)) = Some e -> m_source e = Some SCmdLine ->
+          denote_os c (a_id a) (inv_occs c i) = Some (m_raw e)).
+Proof. exact conservation_inv_x. Qed.
+Print Assumptions C02_conservation_tree_x.
+
+Theorem C02_indices_tree_x : forall i c f st, valid_tree (S f) c = true -> wfx_inv c i = true ->
+  get_matches_with (S f) c (render_inv i) ps_new = ROk st ->
+  forall a ix, In a (c_args c) -> denote_idx_os c (a_id a) (inv_occs c i) = Some ix ->
+  idx_of (a_id a) (mt st) = Some ix.
+Proof. exact indices_inv_x. Qed.
+Print Assumptions C02_indices_tree_x.
+
+(** Non-vacuity: [prog --req=A -vr=B --term X Y --hy -x -- --num -5 F -t Z --req== -y --num --term run --key=K]
+    ([--req]/[--key]: require_equals; [--term]: terminator [;], 1..3 values; [--hy]: two hyphen values -- here [-x], [--],
+    later [--num], [--term]; [--num]: negative numbers): in the lifted class, not in the old one; parses as denoted. *)
+Theorem C02_unparse_x_nonvacuous :
+  (is_set s_no_binary_name XEx.c0 = false /\ valid (with_bin XEx.c0 XEx.bin) = true /\ wfx_inv XEx.c XEx.xinv = true /\
+   convx XEx.c = true /\ conv XEx.c = false /\
+   no_globals (build_recursive (S (S (depth XEx.c))) (with_bin XEx.c0 XEx.bin)) = true /\
+   render_inv XEx.xinv =
+     [[45; 45; 114; 101; 113; 61; 65]; [45; 118; 114; 61; 66]; [45; 45; 116; 101; 114; 109]; [88]; [89];
+      [45; 45; 104; 121]; [45; 120]; [45; 45]; [45; 45; 110; 117; 109]; [45; 53]; [70]; [45; 116]; [90];
+      [45; 45; 114; 101; 113; 61; 61]; [45; 121]; [45; 45; 110; 117; 109]; [45; 45; 116; 101; 114; 109];
+      [114; 117; 110]; [45; 45; 107; 101; 121; 61; 75]]) /\
+  exists m sm,
+    parse_top XEx.c0 (XEx.bin :: render_inv XEx.xinv) = OOk m /\ ms_sub m = Some ([114; 117; 110], sm) /\
+    XEx.raw_of [114] m = Some [[[61]]] /\ XEx.raw_of [116] m = Some [[[88]; [89]]; [[90]]] /\
+    XEx.raw_of [121] m = Some [[[45; 45; 110; 117; 109]; [45; 45; 116; 101; 114; 109]]] /\
+    XEx.raw_of [110] m = Some [[[45; 53]]] /\ XEx.raw_of [102] m = Some [[[70]]] /\ XEx.raw_of [118] m = Some [[[49]]] /\
+    XEx.raw_of [107] sm = Some [[[75]]] /\
+    XEx.idx_of_m [116] m = Some [7; 8; 16] /\ XEx.idx_of_m [121] m = Some [20; 21] /\ XEx.idx_of_m [110] m = Some [13].
+Proof. split; [exact XEx.ex_hyps|exact XEx.ex_parse]. Qed.
+Print Assumptions C02_unparse_x_nonvacuous.
+
+(** Non-vacuity of the terminator theorems: [prog --term X ; F -v] *)
+Theorem C02_terminator_nonvacuous :
+  (is_set s_ignore_errors XEx.c = false /\ wfx_items XEx.c PSValuesDone 1 XEx.its1 = true /\
+   items_pst XEx.c PSValuesDone 1 XEx.its1 = PSOpt (a_id XEx.tb) /\ In XEx.tb (c_args XEx.c) /\ a_term XEx.tb = Some [59] /\
+   (a_hyphen XEx.tb || value_ok [59] || (a_negnum XEx.tb && negnum_tok [59])) = true /\
+   wfx_items XEx.c PSValuesDone (items_pos XEx.c 1 XEx.its1) XEx.its2 = true /\
+   render XEx.its1 ++ [59] :: render XEx.its2 = [[45; 45; 116; 101; 114; 109]; [88]; [59]; [70]; [45; 118]]) /\
+  exists st, get_matches_with 3 XEx.c (render XEx.its1 ++ [59] :: render XEx.its2) ps_new = ROk st /\
+    groups_of [116] (mt st) = Some [[[88]]] /\ groups_of [102] (mt st) = Some [[[70]]] /\
+    idx_of [116] (mt st) = Some [2] /\ idx_of [102] (mt st) = Some [3].
+Proof. split; [exact XEx.ex_term_hyps|exact XEx.ex_term_parse]. Qed.
+Print Assumptions C02_terminator_nonvacuous.
+
+(** (4) COMPOSITION WITH THE MERGE OF GLOBAL VALUES (ParseProofs/UnparseGlobals.v; the merge's closed form is C09's).
+    For a rendered tree WITH global arguments whose meaning succeeds, [parse_top] returns the matches of the
+    meaning with ONE final map inserted at every level: [merged_map] = C09's [final_vm] over the ids
+    [get_used_global_args] collects ([merged_ids]), folded down the levels of the meaning. *)
+Theorem C02_unparse_globals : forall c0 bin i st, is_set s_no_binary_name c0 = false ->
+  valid (with_bin c0 bin) = true -> wf_inv (build_self (with_bin c0 bin)) i = true ->
+  run_inv (build_self (with_bin c0 bin)) i = ROk st ->
+  parse_top c0 (bin :: render_inv i) =
+  OOk (ins_levels (merged_map (with_bin c0 bin) (into_inner (mt st))) (into_inner (mt st))).
+Proof. exact parse_top_merged. Qed.
+Print Assumptions C02_unparse_globals.
+
+Theorem C02_unparse_globals_x : forall c0 bin i st, is_set s_no_binary_name c0 = false ->
+  valid (with_bin c0 bin) = true -> wfx_inv (build_self (with_bin c0 bin)) i = true ->
+  run_inv (build_self (with_bin c0 bin)) i = ROk st ->
+  parse_top c0 (bin :: render_inv i) =
+  OOk (ins_levels (merged_map (with_bin c0 bin) (into_inner (mt st))) (into_inner (mt st))).
+Proof. exact parse_top_merged_x. Qed.
+Print Assumptions C02_unparse_globals_x.
+
+(** what that result holds, level by level and key by key: the final map has pairwise distinct keys, all of them
+    merged ids; its entry for a merged id is [pick] over the chain's own entries for that id (C09: the most
+    explicit source, the deepest level among equals); chain and number of levels are the meaning's; a level of
+    the result answers a key with the final map's entry if there is one, otherwise with the meaning's own entry. *)
+Theorem C02_merged_levels : forall c0 m,
+  let vmF := merged_map c0 m in
+  NoDup (map fst vmF) /\
+  (forall g, mem_id g (merged_ids c0 m) = false -> fm_get g vmF = None) /\
+  (forall g, fm_get g vmF = if mem_id g (merged_ids c0 m) then pick None (map (fm_get g) (levels m)) else None) /\
+  chain (ins_levels vmF m) = chain m /\
+  levels (ins_levels vmF m) = map (ins_all vmF) (levels m) /\
+  (forall lv k, fm_get k (ins_all vmF lv) = match fm_get k vmF with Some e => Some e | None => fm_get k lv end).
+Proof. exact merged_levels. Qed.
+Print Assumptions C02_merged_levels.
+
+(** Non-vacuity: [prog --gl=R -q run --gl=S -x] with [--gl] global: the meaning has R at the root and S in the
+    subcommand; [parse_top] reports S at both levels and leaves the other entries alone. *)
+Theorem C02_unparse_globals_nonvacuous :
+  (is_set s_no_binary_name GlobEx.c0 = false /\ valid (with_bin GlobEx.c0 GlobEx.bin) = true /\ wf_inv GlobEx.c GlobEx.ginv = true /\
+   no_globals (build_recursive (S (S (depth GlobEx.c))) (with_bin GlobEx.c0 GlobEx.bin)) = false /\
+   render_inv GlobEx.ginv = [[45; 45; 103; 108; 61; 82]; [45; 113]; [114; 117; 110]; [45; 45; 103; 108; 61; 83]; [45; 120]]) /\
+  exists st sm, run_inv GlobEx.c GlobEx.ginv = ROk st /\
+    GlobEx.raw_of [103; 108] (into_inner (mt st)) = Some [[[82]]] /\ ms_sub (into_inner (mt st)) = Some ([114; 117; 110], sm) /\
+    GlobEx.raw_of [103; 108] sm = Some [[[83]]] /\
+    merged_ids (with_bin GlobEx.c0 GlobEx.bin) (into_inner (mt st)) = [[103; 108]; [103; 108]] /\
+    map fst (merged_map (with_bin GlobEx.c0 GlobEx.bin) (into_inner (mt st))) = [[103; 108]] /\
+    exists mp smp, parse_top GlobEx.c0 (GlobEx.bin :: render_inv GlobEx.ginv) = OOk mp /\ ms_sub mp = Some ([114; 117; 110], smp) /\
+      GlobEx.raw_of [103; 108] mp = Some [[[83]]] /\ GlobEx.raw_of [103; 108] smp = Some [[[83]]] /\
+      GlobEx.raw_of [113] mp = Some [[s_true]] /\ GlobEx.raw_of [120] smp = Some [[s_true]].
+Proof. split; [exact GlobEx.ex_hyps|exact GlobEx.ex_run]. Qed.
+Print Assumptions C02_unparse_globals_nonvacuous.
+
+(** (5) THE PENDING BUFFER AND THE VALUE RANGE, for ALL commands (ParseProofs/UnparsePending.v).
+    Planned (DESIGN section 5): [C02_pending_bounded : the pending buffer never exceeds num_args.max].  As a statement about
+    every intermediate state of the loop it is FALSE for multi-valued positionals ([C02_pending_positional_refuted]: the
+    run of a positional is only counted when it is flushed).  Proved instead, for all commands, states and tokens:
+    (a) an option occurrence opened without a value starts empty; (b) the loop's value branch appends exactly the token
+    and keeps the option open iff the new length is strictly below the maximum -- so from below the maximum the buffer
+    reaches at most the maximum ([_partial]: the step, not yet folded into one invariant of [parse_loop] over arbitrary
+    token lists; for rendered lines the buffer between items is explicit in [C02_unparse_loop]/[_x]: [set_pending] with at most
+    [num_args.max] values); (c) whatever is flushed from the command line and accepted has min <= #values <= max. *)
+Theorem C02_pending_open_empty : forall c idn attached a has_eq st st' i,
+  parse_opt_value c idn attached a has_eq st = ROk (st', PROpt i) ->
+  i = a_id a /\ mt_pending (mt st') = Some (mkPending (a_id a) (Some idn) [] None).
+Proof. exact pending_open_empty. Qed.
+Print Assumptions C02_pending_open_empty.
+
+Theorem C02_pending_bounded_partial : forall c i tok st st' more p a r,
+  mt_pending (mt st) = Some p -> p_id p = i -> find_arg c i = Some a -> a_id a = i -> a_num a = Some r ->
+  N.of_nat (length (p_raw p)) < vmax r ->
+  take_value c i tok st = ROk (st', more) ->
+  exists p', mt_pending (mt st') = Some p' /\ p_id p' = i /\ p_raw p' = p_raw p ++ [tok] /\
+    N.of_nat (length (p_raw p')) <= vmax r /\
+    (more = true -> N.of_nat (length (p_raw p')) < vmax r) /\
+    (more = false -> N.of_nat (length (p_raw p')) = vmax r).
+Proof. exact take_value_bounded. Qed.
+Print Assumptions C02_pending_bounded_partial.
+
+Theorem C02_flushed_in_range : forall c idn a raw ti st x r, is_set s_ignore_errors c = false -> a_num a = Some r ->
+  react_core c idn SCmdLine a raw ti st = ROk x ->
+  vmin r <= N.of_nat (length raw) <= vmax r.
+Proof. exact flushed_in_range. Qed.
+Print Assumptions C02_flushed_in_range.
+
+(** [prog <f>{1..2}] on [a b c]: at the end of the loop three values are pending for [f]; the line is then rejected
+    (TooManyValues) -- the real crate gives the same answer on this line. *)
+Theorem C02_pending_positional_refuted : exists c toks st p a r,
+  assert_app c = true /\ parse_loop c toks (mkL PSValuesDone 1 false false) ps_new = ROk (LDone st) /\
+  mt_pending (mt st) = Some p /\ find_arg c (p_id p) = Some a /\ a_num a = Some r /\
+  vmax r < N.of_nat (length (p_raw p)) /\
+  (exists e s, get_matches_with 2 c toks ps_new = RErr e s /\ e_kind e = ETooManyValues).
+Proof. exact pending_positional_unbounded. Qed.
+Print Assumptions C02_pending_positional_refuted.
+
+(** Non-vacuity of the option side: [--mu <v>{1..2}]: after [--mu] nothing, after [--mu A] one, after [--mu A B] two values
+    pending; a third token is no longer the option's (here: rejected, there is no positional). *)
+Theorem C02_pending_nonvacuous :
+  PendOptEx.pend_after [[45; 45; 109; 117]] = Some [] /\ PendOptEx.pend_after [[45; 45; 109; 117]; [65]] = Some [[65]] /\
+  PendOptEx.pend_after [[45; 45; 109; 117]; [65]; [66]] = Some [[65]; [66]] /\
+  (exists e s, get_matches_with 2 PendOptEx.c [[45; 45; 109; 117]; [65]; [66]; [67]] ps_new = RErr e s /\ e_kind e = EUnknownArgument).
+Proof. exact PendOptEx.ex. Qed.
+Print Assumptions C02_pending_nonvacuous.
+
+(** (6) THE BRIDGE from the command as written to the class on the built command -- PARTIAL (ParseProofs/UnparseBridge.v).
+    Full statement (not proved): [forall c0, valid c0 = true -> conventional0 c0 = true ->
+    low_index_multiple (build_self c0) = false -> conv (build_self c0) = true].
+    Proved, for all commands: [Arg::_build] and the positional-index assignment keep the six per-argument conjuncts of
+    [conv] for every declared argument; the settings the class mentions are unchanged by the stages of [_build_self] before
+    the deprecated-settings push, and with [allow_hyphen_values]/[allow_negative_numbers]/[trailing_var_arg] off at command
+    level that push changes no argument.  Missing: the help/version arguments appended by [_check_help_and_version], the
+    [Built] mark, the low-index conjunct, and the assembly. *)
+Theorem C02_bridge_args_partial : forall args groups pc, forallb conv_arg args = true ->
+  forallb conv_arg (fst (build_args args groups pc)) = true.
+Proof. exact build_args_conv. Qed.
+Print Assumptions C02_bridge_args_partial.
+
+Theorem C02_bridge_deprecated_partial : forall c h a,
+  is_set s_allow_hyphen c = false -> is_set s_allow_negnum c = false -> is_set s_tva c = false ->
+  bs_deprecated_arg c h a = a.
+Proof. exact deprecated_conv. Qed.
+Print Assumptions C02_bridge_deprecated_partial.
+
+Theorem C02_bridge_settings_partial : forall c,
+  is_set s_allow_hyphen (pre_build c) = is_set s_allow_hyphen c /\
+  is_set s_allow_negnum (pre_build c) = is_set s_allow_negnum c /\
+  is_set s_tva (pre_build c) = is_set s_tva c /\
+  is_set s_sub_precedence (pre_build c) = is_set s_sub_precedence c /\
+  is_set s_allow_missing_pos (pre_build c) = is_set s_allow_missing_pos c.
+Proof. exact bridge_settings. Qed.
+Print Assumptions C02_bridge_settings_partial.
